@@ -7,6 +7,9 @@ d  restriction to the centre manifold zeroes exactly the monomials containing q1
 
 a-series  the series the chains request realise H_cm = H o Phi and invert each other (C08.b/c for the partial normal form, re-filed)
 a-cache   anything cached from the degree-dependent pipeline is keyed on / invalidated with the degree (C20.b/e on the CM service)
+
+a-cache (round 3)  keys of the centre-manifold service contain every parameter whole (no rounding);  a-slots: partial and full series keep their own slot
+d (round 3)  the restriction leaves its INPUT polynomial untouched (the earlier formulation compared the input with itself after the call: vacuous, repaired)
 """
 from __future__ import annotations
 
